@@ -165,6 +165,9 @@ func awaitPandoraTermination(pandora *engine.Engine, gracefulShutdown func(), er
 		case sig := <-sigs:
 			log.Fatal("Another signal received. Quiting.", zap.Stringer("signal", sig))
 		case err := <-errs:
+			// Engine.Run returns as soon as its context is canceled, but aggregators may
+			// still be draining their queues and flushing results: await them before exit.
+			awaitEngineTasks(pandora, interruptTimeout, log)
 			log.Fatal("Engine interrupted", zap.Error(err))
 		}
 
@@ -182,6 +185,20 @@ func awaitPandoraTermination(pandora *engine.Engine, gracefulShutdown func(), er
 			pandora.Wait()
 			log.Fatal("Engine run failed. Pandora graceful shutdown successfully finished")
 		}
+	}
+}
+
+// awaitEngineTasks waits until all started engine tasks are finished, but no longer than timeout.
+func awaitEngineTasks(pandora *engine.Engine, timeout time.Duration, log *zap.Logger) {
+	done := make(chan struct{})
+	go func() {
+		pandora.Wait()
+		close(done)
+	}()
+	select {
+	case <-done:
+	case <-time.After(timeout):
+		log.Error("Engine tasks timeout exceeded.", zap.Duration("timeout", timeout))
 	}
 }
 
